@@ -1,4 +1,5 @@
 import Dalek.Proofs.KLane
+import Dalek.Model.VecInv
 /-! KLane — glue between the per-formula refinement theorems (`<item>_refines`), the bound theorems (`<item>_safe`,
 `Props/C11/VecChain`) and the group-law theorems about the AlgIR items (`Props/C03/Vector.lean`). -/
 namespace Dalek.Proofs.KLane
@@ -67,5 +68,11 @@ theorem choice_cast_eq_zero {c : Nat} (h : c = 0 ∨ c = 1) : ((c : Nat) : Fp) =
   rcases h with rfl | rfl
   · simp
   · simp
+
+/-- unfold `lanesOf sorts ins` of explicit lists into the explicit list of lane values -/
+macro "lanes_simp" " at " h:ident : tactic =>
+  `(tactic| simp only [lanesOf, List.zipWith_cons_cons, List.zipWith_nil_left, List.zipWith_nil_right,
+      List.flatten_cons, List.flatten_nil, meaning_v26, meaning_v51, meaning_fe, meaning_ch, List.cons_append,
+      List.nil_append, List.append_nil, List.getD_cons_zero] at $h:ident)
 
 end Dalek.Proofs.KLane
